@@ -206,6 +206,16 @@ int main(int argc, char ** argv) {
             for (k = 0; k < len; k++) total *= 6;
             for (c = 0; c < total; c++) { long x = c; for (k = 0; k < len; k++) { s[k] = al[x % 6]; x /= 6; } case_text(s, (size_t) len); }
         }
+        {
+            /* texts longer than the 255 characters that bound error descriptions (not texts) */
+            static unsigned char lt[800];
+            static const int lens[] = {254, 255, 256, 257, 300, 511, 512, 700};
+            int j, k;
+            for (j = 0; j < 8; j++) {
+                for (k = 0; k < lens[j]; k++) lt[k] = (unsigned char) ((k % 37 == 5) ? '"' : 'a' + k % 26);
+                case_text(lt, (size_t) lens[j]);
+            }
+        }
         for (len = 1; len <= 127; len++) {          /* every 7-bit character alone and between letters */
             s[0] = (unsigned char) len; case_text(s, 1);
             s[0] = 'x'; s[1] = (unsigned char) len; s[2] = 'y'; case_text(s, 3);
